@@ -14,10 +14,16 @@ def post(chk, case, res, small, error_key=None):
     return False
 
 
+def idem(c):
+    # the finished run is run again and resumed from its last checkpoint with the C01 monitors still armed (a sampler that re-enters the loop, or draws a new
+    # initial live set after points were discarded, is seen there)
+    return dict(c, idempotence=True)
+
+
 def main():
     chk = Check("C01", "exploration")
     assert_repo()
-    run_matrix(chk, props=("C01",), post=post, deciding=["C01.consume_sample", "C01.populate_live_points", "C01.finalise", "C01.end_of_run"],
+    run_matrix(chk, props=("C01",), post=post, extra_case=idem, deciding=["C01.consume_sample", "C01.populate_live_points", "C01.finalise", "C01.end_of_run"],
                rule="real FlowSampler runs over the standard-sampler matrix (models G2u/G4u/G2n/Tie2/GW5 x proposal classes x latent priors x reparameterisations "
                     "x flow types x nlive 10..300 x uninformed variants, a third stopped abruptly and resumed from the last checkpoint); the monitor compares the "
                     "live set before and after every consume_sample, the initial live set and finalise. Non-trivial = run with at least one monitored replacement "
